@@ -7,13 +7,9 @@ pub mod pgp;
 /// test helper to print signatures
 pub fn echo_signature(scope: &str, signature: &[u8]) {
     log::debug!(
-        "{}: [len={}] [{:#04X?}, {:#04X?}, {:#04X?}, {:#04X?}, {:#04X?}, ...]",
+        "{}: [len={}] {:#04X?} ...",
         scope,
         signature.len(),
-        signature[0],
-        signature[1],
-        signature[2],
-        signature[3],
-        signature[4]
+        &signature[..signature.len().min(5)]
     );
 }
